@@ -411,7 +411,8 @@ def _split_top(text: str) -> List[str]:
 
 # ---------------------------------------------------------------------------------------------------------------
 # joins: SQLTranspiler.visit_JoinOp evaluated on abstract operand structures
-def join_sql(M: Model, op: str, operands: List[Tuple[str, MDS, Optional[str]]], using: Optional[List[str]] = None) -> Tuple[str, Any]:
+def join_sql(M: Model, op: str, operands: List[Tuple[str, MDS, Optional[str]]], using: Optional[List[str]] = None,
+             nvl: Optional[Dict[str, str]] = None) -> Tuple[str, Any]:
     """operands: (dataset name, structure, alias or None).  Returns ("ok", MBuilder) with .cols / .joins recorded."""
     f = M.P.func(f"{TRQ}.visit_JoinOp")
     by_name = {n: d for n, d, _a in operands}
@@ -431,7 +432,7 @@ def join_sql(M: Model, op: str, operands: List[Tuple[str, MDS, Optional[str]]], 
         "self._get_dataset_structure": lambda n: by_name[n.value],
         "self._get_dataset_sql": lambda n: f'"{n.value}"',
         "self._get_node_value": lambda x: getattr(x, "value", x),
-        "self._resolve_join_nvl_defaults": lambda *a: {},
+        "self._resolve_join_nvl_defaults": lambda *a: dict(nvl or {}),
         "self._build_join_viral_cols": lambda *a: [],
         "merged_viral_attribute_names": lambda *a: set(),
         "get_current_registry": lambda: None,
